@@ -370,6 +370,8 @@ Section Final.
   Notation sinvert := (c09_s_invert T U sub mul div absr gt nz zero one mone).
   Notation vdet := (c09_v_det T U sub mul div absr gt nz zero one mone W).
   Notation sdet := (c09_s_det T U sub mul div absr gt nz zero one mone).
+  Notation vdet_old := (c09_v_det_before_fix T U sub mul div absr gt nz zero one mone W).
+  Notation sdet_old := (c09_s_det_before_fix T U sub mul div absr gt nz zero one mone).
 
   (* main theorem, both modes of luDecomposition *)
   Lemma P_lu_lanes : forall dp n A b,
@@ -442,8 +444,8 @@ Section Final.
     - destruct P as [l [Hl E]]. exists l. eexists. split; auto. simpl in E. rewrite E. reflexivity.
   Qed.
 
-  (* determinant with the select applied after the product (fixes/C09-1.patch): EVERY lane, singular ones included *)
-  Lemma P_det_lanes : forall dp n A l, l < W -> nth l (vdet true dp n A) zero = sdet true dp n (LM l A).
+  (* determinant (select applied after the product): EVERY lane, singular ones included *)
+  Lemma P_det_lanes : forall dp n A l, l < W -> nth l (vdet dp n A) zero = sdet dp n (LM l A).
   Proof.
     intros dp n A l Hl. unfold c09_v_det, c09_s_det.
     destruct (proj1 (P_lu_lanes dp n A []) l Hl) as [st' [s' [R1 [R2 [Ok St]]]]].
@@ -456,12 +458,12 @@ Section Final.
     - apply (lane_vzero T zero W l Hl).
   Qed.
 
-  (* determinant as the code stands (select before the product): only lanes whose scalar run stays regular *)
-  Lemma P_det_lanes_current_partial : forall dp n A l s', l < W ->
+  (* determinant as the code stood before 1209091 (select before the product): only lanes whose scalar run stays regular *)
+  Lemma P_det_lanes_before_fix_partial : forall dp n A l s', l < W ->
     slu false dp n (LM l A) [] = C09_Ok s' -> c09_sok T s' = true ->
-    nth l (vdet false dp n A) zero = sdet false dp n (LM l A).
+    nth l (vdet_old dp n A) zero = sdet_old dp n (LM l A).
   Proof.
-    intros dp n A l s0 Hl Hs Hok. unfold c09_v_det, c09_s_det.
+    intros dp n A l s0 Hl Hs Hok. unfold c09_v_det_before_fix, c09_s_det_before_fix.
     destruct (proj1 (P_lu_lanes dp n A []) l Hl) as [st' [s' [R1 [R2 [Ok St]]]]].
     simpl in R2. rewrite R2 in Hs. inversion Hs; subst s0.
     rewrite R1, R2. rewrite Hok. rewrite <- (St Hok).
